@@ -3,10 +3,14 @@ import json, os, sys, subprocess, time, shutil, glob, re
 from concurrent.futures import ThreadPoolExecutor
 
 ROOT = os.path.dirname(os.path.dirname(os.path.abspath(__file__)))
-WORK = os.path.join(ROOT, "work")
+# The registered checks always use /repo, /verif/work and /verif/evidence.  The three overrides below exist
+# only so that tools/mutest.py can run checks against a scratch worktree carrying a seeded change, in
+# parallel, without touching /repo or the committed evidence.
+REPO = os.environ.get("VERIF_REPO", "/repo")
+WORK = os.environ.get("VERIF_WORK", os.path.join(ROOT, "work"))
 SPEC = os.path.join(ROOT, "spec")
 HARNESS = os.path.join(ROOT, "harness")
-EVID = os.path.join(ROOT, "evidence")
+EVID = os.environ.get("VERIF_EVID", os.path.join(ROOT, "evidence"))
 REPLAY_DIR = os.path.join(WORK, "replay")
 TLA_CP = "/opt/veriftools/tla/tla2tools.jar:/opt/veriftools/tla/CommunityModules-deps.jar"
 NCPU = os.cpu_count() or 4
@@ -37,13 +41,18 @@ def build_harness(profile="checked"):
     """Always rebuild from /repo's current working tree (path dependency) with hooks enabled."""
     env = dict(os.environ, CARGO_NET_OFFLINE="true")
     t0 = time.time()
-    p = subprocess.run(["cargo", "build", "--offline", "--profile", profile],
-                       cwd=HARNESS, env=env, capture_output=True, text=True)
+    cmd = ["cargo", "build", "--offline", "--profile", profile]
+    target = os.path.join(HARNESS, "target")
+    if REPO != "/repo":
+        cmd += ["--config", f'paths=["{REPO}/chess","{REPO}/chess_base"]']
+        target = os.path.join(WORK, "harness-target")
+        env["CARGO_TARGET_DIR"] = target
+    p = subprocess.run(cmd, cwd=HARNESS, env=env, capture_output=True, text=True)
     if p.returncode != 0:
         log(p.stdout[-3000:]); log(p.stderr[-6000:])
         raise ToolError(f"cargo build of the harness failed (profile {profile})")
-    log(f"[build] harness ({profile}) in {time.time() - t0:.1f}s")
-    return os.path.join(HARNESS, "target", profile, "harness")
+    log(f"[build] harness ({profile}) against {REPO} in {time.time() - t0:.1f}s")
+    return os.path.join(target, profile, "harness")
 
 
 def run_harness(binary, args, timeout=3600, env=None):
